@@ -437,6 +437,38 @@ def make_script(vs, r, probes_model, rng, level="std", str_cap=48, pairs_cap=36,
             cons = big_cons if n > 64 else [CONSUMERS[(j + t) % len(CONSUMERS)] for t in range(3)]
             # (the key is content-based: members of a group draw different random histories)
             multi_session(L, f"multi3:{h(json.dumps(ops) + str(news) + str(cons))}", news, ops, inter, cons)
+    # ---- concurrent threads: each thread owns an iterator (slot = thread) and makes pure calls; the threads share nothing in
+    # the contract, so every thread's observations are what it would see alone (whatever the schedule) ----
+    if level in ("std", "full", "light") and call_lines:
+        for j in range(1 if level == "std" else 4):
+            nthreads = rng.choice([2, 3, 4])
+            prog = []
+            for tid in range(nthreads):
+                src = rng.choice(["iter", "names", full_new] + (["range %s %s" % (bits(rng.choice(reals)), bits(rng.choice(reals)))] if n > 1 else []))
+                steps = [("new", src)]
+                for _ in range(rng.randint(6, 24)):
+                    t = rng.random()
+                    if t < 0.5:
+                        steps.append(("callline", rng.choice(call_lines)))
+                    else:
+                        op = ("next", 0) if t < 0.65 else ("next_back", 0) if t < 0.8 else \
+                            (rng.choice(["nth", "nth_back", "find", "take_count"]), rng.choice([0, 1, 2, n, stimuli.BIG])) if t < 0.92 else ("len", 0)
+                        steps.append(("op", op_line(*op)))
+                steps.append(("end", "end %s %s" % rng.choice(CONSUMERS[:7] + [("count", 0)])))
+                prog.append(steps)
+            key = "par:" + h(json.dumps(prog))
+            # the lines of the threads alternate in the script (the runner groups them by thread again)
+            per = {tid: [] for tid in range(nthreads)}
+            for tid, steps in enumerate(prog):
+                for i, (kd, x) in enumerate(steps):
+                    per[tid].append(f"p {tid} {x[2:]}" if kd == "callline" else f"p {tid} {key}.{tid}.{i} " + (f"new {x}" if kd == "new" else x))
+            rr = []
+            while any(per.values()):
+                for tid in range(nthreads):
+                    if per[tid]:
+                        rr.append(per[tid].pop(0))
+            L.append(f"s {key} par {len(rr)}")
+            L += rr
     # ---- history independence of the pure items: a seeded sample of the calls above, again, in random order
     # (after the iterator sessions), and from_str on strings of equal length one after the other (the runner
     # passes every string through ONE reused buffer: same address, same length, other bytes) ----
